@@ -1,5 +1,6 @@
 """C04 -- best-so-far never worsens; counters, monitors and callbacks are faithful."""
 from .. import solverplan, oracles
+from ..env import sub_rng
 
 ID = 'C04'
 LEVEL = 'exploration'
@@ -8,17 +9,28 @@ WALL = {'quick': 90, 'thorough': 1200}
 RULE = ("seeded op sequences (Set*/Step/Solve/Finalize, mid-run reconfiguration, stop-and-resume) over "
         "NM/Powell/DE/DE2 with scripted cost/constraint/penalty peers; a run is non-trivial when it "
         "executed more than one _Step and more than one cost call; distinct = distinct trace digests")
-ASSUMPTIONS = ["constraints are drawn from deterministic idempotent box-compatible families",
+ASSUMPTIONS = ["under an injected ENOSPC/EIO on a LoggingMonitor file the oracle is relaxed to: the error reaches the caller, the evaluation "
+               "counter still equals the real calls, each log file holds the in-memory records or lacks only the one in flight; the plan "
+               "ends there (fault-free and fault-injecting runs are generated from disjoint seeds and counted separately in faults_fired)",
+               "constraints are drawn from deterministic idempotent box-compatible families",
                "step monitors are replaced mid-run only with new=False (the property says monitors start empty)",
                "evaluation-monitor contents are checked only with the default in-process map",
                "costs that return nan are excluded (a nan best makes 'non-increasing' undefined)"]
 REAL = ["mystic solvers, termination, monitors, tools.wrap_*", "files behind LoggingMonitor (real files via proxy)"]
 STUB = ["cost, constraints, penalty, callback (scripted peers)", "clocks", "signal/tty", "file open() proxy"]
 
-KNOBS = dict(p_vector=0.08, p_resume=0.4)
+KNOBS = dict(p_vector=0.08, p_resume=0.4, p_logging=0.25)
 
 def gen_plan(seed, tier):
-    return solverplan.gen_solver_plan(seed, tier, ID, KNOBS)
+    plan = solverplan.gen_solver_plan(seed, tier, ID, KNOBS)
+    # fault-injecting configuration (reported separately in the evidence: faults_fired): an ENOSPC / EIO on a write
+    # of a LoggingMonitor file.  The plan ends where the error reaches the caller.
+    logging = any(o['op'] == 'set' and o['what'] in ('stepmon', 'evalmon') and (o.get('arg') or {}).get('kind') == 'Logging'
+                  for o in plan['ops'])
+    rng = sub_rng(seed, 'fault')
+    if logging and rng.random() < 0.5:
+        plan['faults'] = [{'at': 'fs.write#%d' % rng.randint(2, 40), 'kind': rng.choice(['enospc', 'eio'])}]
+    return plan
 
 def run_plan(plan):
     return solverplan.run_solver_plan(plan, [oracles.CounterModel])
